@@ -95,7 +95,7 @@ def run(tier, seed):
     rng = SplitMix64(seed)
     d = Driver()
     seeds = []          # (lib, dir, frame, label, hdr_len)
-    per = 1 if tier == "quick" else 4
+    per = 1 if tier == "quick" else 2
     reqs, meta = [], []
     for c in ok:
         for s in range(per):
@@ -148,6 +148,32 @@ def run(tier, seed):
             seen.add(key)
             hreq.append(f"dec {lib} {dr} {b.hex() or '-'}")
             hmeta.append((lib, dr, b, label, kind))
+    # strings at and beyond the published limits (CString 256, String 255, SizedCString 8000): every message with a string member,
+    # every string of the frame 254 / 255 / 256 / 257 / 300 (thorough: also 1000 / 9000) bytes long -- frames from the reference encoder
+    import pyenc
+    n_strlen = 0
+    for c in ok:
+        if not ({"cstring", "sizedcstring", "string"} & set(c["tokens"])):
+            continue
+        nstr = sum(1 for t in c["tokens"] if t in ("cstring", "sizedcstring", "string"))
+        for sl in [(k, n) for k in range(min(nstr, 3 if tier == "quick" else 8)) for n in (255, 256, 257, 300) + ((254, 1000, 9000) if tier != "quick" else ())] + [254, 256, 300]:
+            try:
+                body = pyenc.encode(c["tokens"], rng, 1, None, strlen=sl)
+            except pyenc.Unsupported:
+                break
+            except (OverflowError, ValueError):
+                continue
+            for dr in directions(c)[:1]:
+                try:
+                    fr = frame(libname(c), dr, c["opcode"], body)
+                except Exception:
+                    continue
+                if (libname(c), dr, fr) in seen:
+                    continue
+                seen.add((libname(c), dr, fr))
+                hreq.append(f"dec {libname(c)} {dr} {fr.hex()}")
+                hmeta.append((libname(c), dr, fr, c["key"], f"strlen{sl[1] if isinstance(sl, tuple) else 'all' + str(sl)}"))
+                n_strlen += 1
     rcorp = rust_flags.Corpus()
     for t in rust_reads.opcode_tables(rcorp):
         ops = t["wowm"] if tier != "quick" else t["wowm"][::3]
@@ -183,7 +209,7 @@ def run(tier, seed):
                           {"library": lib, "direction": dr, "seed": label, "fault": kind, "input_hex": b.hex(), "implementation": h[:400], "replay_cmd": f"echo '{hq[:20000]}' | {har}"})
     rep.coverage = {
         "evaluations": len(hreq), "distinct_nontrivial": len(seen) + sum(1 for x in hmeta if x[4] == "random-frame"),
-        "rule": "seeds: one (thorough: four) canonical frame per version-expanded message + every wowm test vector; faults: every prefix, every 1/2/4-byte window := 0,1,2,max,max/2, header size +-, random bytes, random frames per opcode; distinct = distinct (library, direction, bytes)",
+        "rule": "seeds: one (thorough: four) canonical frame per version-expanded message + every wowm test vector; faults: every prefix, every 1/2/4-byte window := 0,1,2,max,max/2, header size +-, random bytes, random frames per opcode, every string member at 254..300 (thorough ..9000) bytes; distinct = distinct (library, direction, bytes)",
         "seeds": len(seeds), "fault_kinds": dict(kinds), "outcome_classes": dict(classes.most_common(12)), "largest_single_allocation": worst_alloc[0], "largest_allocation_request": worst_alloc[1],
         "spec_theorems": po["theorems"], "spec_obligations": po["obligations"], "spec_discharged": po["discharged"],
         "samples": [{"request": hreq[i][:120], "implementation": ho[i][:120]} for i in (1, len(hreq) // 3, len(hreq) // 2, len(hreq) - 1)],
